@@ -4,6 +4,7 @@ import (
 	"bytes"
 	"encoding/json"
 	"fmt"
+	"strings"
 	"sync/atomic"
 
 	"github.com/willabides/rjson"
@@ -225,6 +226,19 @@ func c06Sweeps(r *eng.Run) {
 			}
 		}
 	})
+	// every high surrogate followed by units round the surrogate range boundaries and a few others
+	bounds := []int{0xD7FF, 0xD800, 0xDBFF, 0xDC00, 0xDFFF, 0xE000, 0xE001, 0xFFFF, 0x0000, 0x0041}
+	eng.Parallel(1024, func(i int) {
+		hi := 0xD800 + i
+		for _, lo := range bounds {
+			one([]byte(fmt.Sprintf(`"%s%s"`, U(fmt.Sprintf("%04x", hi)), U(fmt.Sprintf("%04X", lo)))), "high-then-boundary-unit")
+		}
+	})
+	// two escapes separated by a plain run of every length 0..17 (destination sizing depends on
+	// where the first quote-like byte sits)
+	for _, w := range twoEscapeStrings() {
+		one(w, "two-escapes")
+	}
 	// growth boundaries: destination (len 0..3, spare 0..8) x escape kinds at each position of a
 	// 3-byte string
 	escs := []string{`\n`, `\"`, `\\`, `\/`, `\b`, `\f`, `\r`, `\t`, U("0041"), U("00e9"), U("20ac"), U("d83d") + U("de00"), U("0000"), "é", "😀", `\ud800`, "\x7f", "\xc3\xa9", "\xff"}
@@ -267,4 +281,21 @@ func c06Sweeps(r *eng.Run) {
 	r.Set("e5_sweep_inputs", int(evals))
 	r.Set("e5_growth_cases", n)
 	r.Sample(map[string]interface{}{"kind": "sweep", "input": `"😀"`, "family": "all 2048x2048 ordered surrogate pairs"})
+}
+
+// twoEscapeStrings returns string tokens with two escapes separated by plain runs of length
+// 0..17, for every pair of escape kinds.
+func twoEscapeStrings() [][]byte {
+	kinds := []string{"\\" + `"`, "\\" + "\\", "\\" + "n", "\\" + "/", U("0041"), U("00e9"), U("20ac"), U("d83d") + U("de00"), U("d800"), U("dc00")}
+	var out [][]byte
+	for _, e1 := range kinds {
+		for _, e2 := range kinds {
+			for k := 0; k <= 17; k++ {
+				for _, pre := range []int{0, 3} {
+					out = append(out, []byte(`"`+strings.Repeat("p", pre)+e1+strings.Repeat("x", k)+e2+`"`))
+				}
+			}
+		}
+	}
+	return out
 }
